@@ -334,6 +334,11 @@ func runC01(c *fw.Ctx) {
 	for _, now := range Clocks(LP.Archs, false, []string{"mid"})[:2] {
 		plans = append(plans, plan{aConfig{LP, 4096, now}, 2, 40})
 	}
+	// steps with prime factors other than 2 and 3 (7 s and 35 s)
+	l11 := LayoutByTag("L11")
+	for _, now := range Clocks(l11.Archs, false, []string{"mid"}) {
+		plans = append(plans, plan{aConfig{l11, 4096, now}, depth, maxCore})
+	}
 	// an archive of 8000 slots (24 pages): windows far longer than any chunk or page a reader might use
 	lh := L("LH", "1s:8000s,400s:16000s")
 	for _, now := range Clocks(lh.Archs, false, []string{"mid"})[1:2] {
@@ -350,7 +355,7 @@ func runC01(c *fw.Ctx) {
 			}
 		}
 	}
-	c.R.Bounds["layouts"] = fmt.Sprintf("core L1-L9 + LP (700 slots) + LH (8000 slots, depth 2, 6 core states); thorough: + %d further layouts (every valid list with k<=2, S0<=3, ratio<=4, Ni<=8 and every 12th three-level one) at depth 3", nextra)
+	c.R.Bounds["layouts"] = fmt.Sprintf("core L1-L9 + L11 (steps 7 s / 35 s) + LP (700 slots) + LH (8000 slots, depth 2, 6 core states); thorough: + %d further layouts (every valid list with k<=2, S0<=3, ratio<=4, Ni<=8 and every 12th three-level one) at depth 3", nextra)
 	c.R.Bounds["history"] = fmt.Sprintf("generator depth %d + 1 operation of the full alphabet from every core state", depth)
 	c.R.Bounds["batch"] = "<=3 arbitrary points in every order + dense batches + future-dated points"
 	c.R.Bounds["pages"] = fmt.Sprintf("4096 on every clock; %v on two phases", pages)
